@@ -611,3 +611,311 @@ Proof.
     exists ob. repeat split; assumption.
   - exists []. cbn [fst snd]. rewrite app_nil_r. repeat split. constructor.
 Qed.
+
+Lemma settled_dec_phase id s :
+  settled id s -> forall cs, find_call id s = Some cs -> exists t r d, cs_phase cs = PFb t r d.
+Proof.
+  unfold settled, ph. intros [H|(t & r & d & H)] cs Hf; rewrite Hf in H; cbn in H; [discriminate|].
+  exists t, r, d. congruence.
+Qed.
+
+Lemma end_run_settled st id e s : settled id s -> end_run st id e s = (s, []).
+Proof.
+  intros H. unfold end_run. destruct (find_call id s) as [cs|] eqn:Hf; [|reflexivity].
+  destruct (settled_dec_phase id s H cs Hf) as (t & r & d & Hp). rewrite Hp. reflexivity.
+Qed.
+
+(* a run function that was running returns: what is shown *)
+Lemma end_run_PRun_obs st id e s cs start expected derived :
+  find_call id s = Some cs -> cs_phase cs = PRun start expected derived ->
+  res_panics (e_res e) = false ->
+  exists oq tail,
+    snd (end_run st id e s) =
+    ORunEnd id (cs_done cs) ::
+    (run_fan st (classify (res_is_bad (e_res e)) (match expected with Some x => x <? clock s | None => false end)
+                          (negb (res_is_nil (e_res e))) (cs_done cs) (l_ignore_int (cfg s)) (ie_says (l_ie (cfg s))))
+             (clock s) (Some (clock s - start)) ++ oq) ++ tail /\
+    Quiet oq /\
+    ((exists v a, tail = [OReturned id v a]) \/
+     (exists err s2, tail = snd (fallback_stage st cs err true derived s2))).
+Proof.
+  intros Hf Hp Hn. rewrite (end_run_PRun st id e s cs start expected derived Hf Hp). cbv zeta.
+  destruct (run_outcome_spec st (e_res e) e (cs_done cs) start expected s) as (oq & E & Q & _).
+  exists oq.
+  destruct (e_res e) as [|k|k|k|v] eqn:Er; try discriminate Hn; cbn [res_is_nil res_is_bad snd]; rewrite E;
+    eexists; (split; [reflexivity|]); (split; [exact Q|]); eauto.
+Qed.
+
+(* ... and what becomes of the table of calls *)
+Lemma end_run_PRun_state st id e s cs start expected derived :
+  find_call id s = Some cs -> cs_phase cs = PRun start expected derived ->
+  settled id (fst (end_run st id e s)) /\
+  forall id', id' <> id -> ph id' (fst (end_run st id e s)) = ph id' s.
+Proof.
+  intros Hf Hp. rewrite (end_run_PRun st id e s cs start expected derived Hf Hp). cbv zeta.
+  pose proof (find_call_id id s cs Hf) as Hid.
+  destruct (run_outcome_spec st (e_res e) e (cs_done cs) start expected s) as (oq & _ & _ & C).
+  set (r := run_outcome st (e_res e) e (cs_done cs) start expected s) in *.
+  assert (DROP : forall s', calls s' = calls s ->
+            settled id (drop_call id s') /\ forall id', id' <> id -> ph id' (drop_call id s') = ph id' s).
+  { intros s' Hc. split.
+    - left. rewrite ph_drop, Nat.eqb_refl. reflexivity.
+    - intros id' Hne. rewrite ph_drop. destruct (Nat.eqb id id') eqn:E; [lia|]. apply ph_calls. exact Hc. }
+  assert (FB : forall err s', calls s' = calls s ->
+            settled id (fst (fallback_stage st cs err true derived s')) /\
+            forall id', id' <> id -> ph id' (fst (fallback_stage st cs err true derived s')) = ph id' s).
+  { intros err s' Hc. split.
+    - rewrite <- Hid at 1. apply fallback_stage_settled.
+    - intros id' Hne. rewrite fallback_stage_ph_other by lia. apply ph_calls. exact Hc. }
+  destruct (e_res e) as [|k|k|k|v]; cbn [res_is_nil res_is_bad fst];
+    first [apply DROP | apply FB]; try exact C; reflexivity.
+Qed.
+
+Lemma end_run_other st id e s :
+  all_inv (snd (end_run st id e s)) = [] /\
+  forall id', id' <> id -> ph id' (fst (end_run st id e s)) = ph id' s.
+Proof.
+  destruct (find_call id s) as [cs|] eqn:Hf.
+  - destruct (cs_phase cs) as [start expected derived| |t r d] eqn:Hp.
+    + split; [|apply (end_run_PRun_state st id e s cs start expected derived Hf Hp)].
+      destruct (res_panics (e_res e)) eqn:Hn.
+      * rewrite (end_run_PRun st id e s cs start expected derived Hf Hp). cbv zeta.
+        destruct (e_res e); try discriminate Hn. reflexivity.
+      * destruct (end_run_PRun_obs st id e s cs start expected derived Hf Hp Hn) as (oq & tail & E & Q & T).
+        rewrite E. rewrite all_inv_cons. proj_norm. rewrite (quiet_all_inv _ Q).
+        destruct T as [(v & a & ->)|(err & s2 & ->)]; [reflexivity|].
+        rewrite fallback_stage_all_inv. reflexivity.
+    + unfold end_run. rewrite Hf, Hp. cbn [fst snd]. split; [reflexivity|].
+      intros id' Hne. rewrite ph_drop. destruct (Nat.eqb id id') eqn:E; [lia|reflexivity].
+    + unfold end_run. rewrite Hf, Hp. split; reflexivity.
+  - unfold end_run. rewrite Hf. split; reflexivity.
+Qed.
+
+(* ====================================================================== *)
+(* EndFb                                                                   *)
+(* ====================================================================== *)
+Lemma end_fb_not_fb st id f s :
+  (forall t r d, ph id s <> Some (PFb t r d)) -> end_fb st id f s = (s, []).
+Proof.
+  intros H. unfold end_fb. unfold ph in H. destruct (find_call id s) as [cs|]; [|reflexivity].
+  cbn in H. destruct (cs_phase cs) as [| |t r d]; try reflexivity. exfalso. apply (H t r d). reflexivity.
+Qed.
+
+Lemma end_fb_PFb st id f s cs fbstart ran derived :
+  find_call id s = Some cs -> cs_phase cs = PFb fbstart ran derived ->
+  end_fb st id f s =
+  (drop_call id (set_fbs s (fbs s - 1)),
+   match f with
+   | FPanic v => []
+   | FErr _ => emit_fb st FKFailure fbstart (Some (clock s - fbstart))
+   | FNil => emit_fb st FKSuccess fbstart (Some (clock s - fbstart))
+   end ++
+   [OReturned id match f with FPanic v => VPanic v | FErr k => VFb k | FNil => VNil end
+              (fb_after ran derived (cs_done cs))]).
+Proof.
+  intros Hf Hp. unfold end_fb. rewrite Hf, Hp. destruct f; reflexivity.
+Qed.
+
+Lemma end_fb_other st id f s :
+  all_inv (snd (end_fb st id f s)) = [] /\ (forall w, run_evs w (snd (end_fb st id f s)) = []) /\
+  ph id (fst (end_fb st id f s)) = match ph id s with Some (PFb _ _ _) => None | x => x end /\
+  forall id', id' <> id -> ph id' (fst (end_fb st id f s)) = ph id' s.
+Proof.
+  destruct (find_call id s) as [cs|] eqn:Hf.
+  - assert (Hph : ph id s = Some (cs_phase cs)) by (unfold ph; rewrite Hf; reflexivity).
+    destruct (cs_phase cs) as [start expected derived| |t r d] eqn:Hp.
+    + rewrite end_fb_not_fb by (rewrite Hph; discriminate).
+      cbn [fst snd]. rewrite Hph. repeat split; reflexivity.
+    + rewrite end_fb_not_fb by (rewrite Hph; discriminate).
+      cbn [fst snd]. rewrite Hph. repeat split; reflexivity.
+    + rewrite (end_fb_PFb st id f s cs t r d Hf Hp). cbn [fst snd]. rewrite Hph.
+      split; [|split; [|split]].
+      * proj_norm. destruct f; proj_norm; reflexivity.
+      * intros w. proj_norm. destruct f; proj_norm; reflexivity.
+      * rewrite ph_drop, Nat.eqb_refl. reflexivity.
+      * intros id' Hne. rewrite ph_drop. destruct (Nat.eqb id id') eqn:E; [lia|reflexivity].
+  - assert (Hph : ph id s = None) by (unfold ph; rewrite Hf; reflexivity).
+    rewrite end_fb_not_fb by (rewrite Hph; discriminate).
+    cbn [fst snd]. rewrite Hph. repeat split; reflexivity.
+Qed.
+
+(* ====================================================================== *)
+(* one step, seen from a call it does not concern                          *)
+(* ====================================================================== *)
+Lemma begin_call_other st id c s :
+  (forall i, In i (all_inv (snd (begin_call st id c s))) -> i = id) /\
+  forall id', id' <> id -> ph id' (fst (begin_call st id c s)) = ph id' s.
+Proof.
+  assert (PASS : forall d dl,
+    (forall i, In i (all_inv (snd (put_call (cs_pass id c) s, [ORunInvoked id d dl]))) -> i = id) /\
+    forall id', id' <> id -> ph id' (fst (put_call (cs_pass id c) s, [ORunInvoked id d dl])) = ph id' s).
+  { intros d dl. cbn [fst snd]. split.
+    - cbn. intros i [H|[]]. congruence.
+    - intros id' Hne. rewrite ph_put. cbn [cs_pass cs_id]. destruct (Nat.eqb id id') eqn:E; [lia|reflexivity]. }
+  destruct (s_mode st) eqn:Hm; [|unfold begin_call; rewrite Hm; apply PASS..].
+  destruct (l_disabled (cfg s)) eqn:Hd; [unfold begin_call; rewrite Hm, Hd; apply PASS|].
+  destruct (c_has_run c) eqn:Hr.
+  2:{ unfold begin_call. rewrite Hm, Hd, Hr. cbn [negb fst snd]. split; [intros i []|reflexivity]. }
+  destruct (begin_call_char st id c s (conj Hm Hd) Hr) as (cl1 & o1 & Q & E). cbv zeta in E. rewrite E. clear E.
+  destruct (gate s c); cbn [fst snd]; proj_norm; rewrite ?(quiet_all_inv _ Q).
+  - rewrite fallback_stage_all_inv. split; [intros i []|].
+    intros id' Hne. rewrite fallback_stage_ph_other by (cbn [cs_pass cs_id]; lia). reflexivity.
+  - rewrite all_inv_cons, fallback_stage_all_inv. split; [intros i []|].
+    intros id' Hne. rewrite fallback_stage_ph_other by (cbn [cs_pass cs_id]; lia). reflexivity.
+  - rewrite all_inv_cons. proj_norm. rewrite fallback_stage_all_inv. split; [intros i []|].
+    intros id' Hne. rewrite fallback_stage_ph_other by (cbn [cs_pass cs_id]; lia). reflexivity.
+  - split; [cbn; intros i [H|[]]; congruence|].
+    intros id' Hne. rewrite ph_put. cbn [cs_id]. destruct (Nat.eqb id id') eqn:E; [lia|reflexivity].
+Qed.
+
+Lemma cancel_call_ph id id' s : ph id' (cancel_call id s) = ph id' s.
+Proof.
+  unfold cancel_call. destruct (find_call id s) as [cs|] eqn:Hf; [|reflexivity].
+  rewrite ph_put. cbn [cs_id cs_phase]. destruct (Nat.eqb id id') eqn:E; [|reflexivity].
+  assert (id = id') by lia. subst id'. unfold ph. rewrite Hf. reflexivity.
+Qed.
+
+Lemma step_fst st s ev : fst (step st s ev) = fst (step_core st s ev).
+Proof. unfold step. destruct (step_core st s ev); reflexivity. Qed.
+Lemma step_snd st s ev :
+  snd (step st s ev) = snd (step_core st s ev) ++ [reading st (fst (step_core st s ev))].
+Proof. unfold step. destruct (step_core st s ev); reflexivity. Qed.
+
+(* ids of the run functions entered in a step; the phase of a call the event does not concern *)
+Lemma step_core_other st s ev :
+  (forall i, In i (all_inv (snd (step_core st s ev))) -> exists c, ev = Begin i c) /\
+  forall id, concerns id ev = false -> ph id (fst (step_core st s ev)) = ph id s.
+Proof.
+  destruct ev as [id c|id e|id f|id| | |l|d|k]; unfold concerns, event_id, step_core.
+  - destruct (begin_call_other st id c s) as [A B]. split.
+    + intros i Hi. rewrite (A i Hi). eauto.
+    + intros id' Hne. apply B. lia.
+  - destruct (end_run_other st id e s) as [A B]. split.
+    + rewrite A. intros i [].
+    + intros id' Hne. apply B. lia.
+  - destruct (end_fb_other st id f s) as (A & _ & _ & B). split.
+    + rewrite A. intros i [].
+    + intros id' Hne. apply B. lia.
+  - cbn [fst snd]. split; [intros i []|]. intros id' _. apply cancel_call_ph.
+  - destruct (open_circuit_spec st (clock s) s) as [Q C]. split.
+    + rewrite (quiet_all_inv _ Q). intros i [].
+    + intros id' _. apply ph_calls. exact C.
+  - destruct (close_circuit_spec st (clock s) true false s) as [Q C]. split.
+    + rewrite (quiet_all_inv _ Q). intros i [].
+    + intros id' _. apply ph_calls. exact C.
+  - cbn [fst snd]. split; [intros i []|reflexivity].
+  - cbn [fst snd]. split; [intros i []|reflexivity].
+  - cbn [fst snd]. split; [intros i []|reflexivity].
+Qed.
+
+Lemma step_ph_other st s ev id :
+  concerns id ev = false -> ph id (fst (step st s ev)) = ph id s.
+Proof. rewrite step_fst. apply step_core_other. Qed.
+
+Lemma invocation_only_at_begin st : forall s ev id d dl,
+  In (ORunInvoked id d dl) (snd (step st s ev)) -> exists c, ev = Begin id c.
+Proof.
+  intros s ev id d dl H. apply in_all_inv in H. rewrite step_snd in H. revert H. proj_norm.
+  rewrite app_nil_r. apply step_core_other.
+Qed.
+
+(* ====================================================================== *)
+(* histories                                                               *)
+(* ====================================================================== *)
+Lemma all_obs_cons st s ev h :
+  all_obs (trace_from st s (ev :: h)) = snd (step st s ev) ++ all_obs (trace_from st (fst (step st s ev)) h).
+Proof. cbn [trace_from]. destruct (step st s ev) as [s1 o]. reflexivity. Qed.
+
+Lemma call_obs_cons st id s ev h :
+  call_obs id (trace_from st s (ev :: h)) =
+  (if concerns id ev then snd (step st s ev) else []) ++ call_obs id (trace_from st (fst (step st s ev)) h).
+Proof. cbn [trace_from]. destruct (step st s ev) as [s1 o]. reflexivity. Qed.
+
+Lemma begin_ids_cons ev h :
+  begin_ids (ev :: h) = match ev with Begin i _ => [i] | _ => [] end ++ begin_ids h.
+Proof. reflexivity. Qed.
+
+Lemma not_in_begin_ids_cons id ev h :
+  ~ In id (begin_ids (ev :: h)) -> (forall c, ev <> Begin id c) /\ ~ In id (begin_ids h).
+Proof.
+  rewrite begin_ids_cons. intros H. split.
+  - intros c ->. apply H. left. reflexivity.
+  - intros X. apply H. apply in_or_app. right. exact X.
+Qed.
+
+Lemma step_all_inv st s ev i : In i (all_inv (snd (step st s ev))) -> exists c, ev = Begin i c.
+Proof. rewrite step_snd. proj_norm. rewrite app_nil_r. apply step_core_other. Qed.
+
+Lemma no_inv_rest st id : forall h s,
+  ~ In id (begin_ids h) -> run_invocations id (all_obs (trace_from st s h)) = [].
+Proof.
+  induction h as [|ev h IH]; intros s Hn; [reflexivity|].
+  apply not_in_begin_ids_cons in Hn. destruct Hn as [Hev Hn].
+  rewrite all_obs_cons, run_inv_app, (IH _ Hn), app_nil_r.
+  apply run_inv_of_all_inv. intros Hi. apply step_all_inv in Hi. destruct Hi as [c Hc]. exact (Hev c Hc).
+Qed.
+
+Lemma never_invoked st : forall s id c h2,
+  enabled st s -> c_has_run c = true -> (shed_by_open s c || vetoed s c) = true ->
+  ~ In id (begin_ids h2) ->
+  run_invocations id (all_obs (trace_from st s (Begin id c :: h2))) = [].
+Proof.
+  intros s id c h2 He Hr Hg Hn. rewrite all_obs_cons, run_inv_app, (no_inv_rest st id h2 _ Hn), app_nil_r.
+  apply orb_prop in Hg. destruct Hg as [Hs|Hv].
+  - apply (shed_step st s id c He Hr Hs).
+  - apply (veto_step st s id c He Hr Hv).
+Qed.
+
+(* once a call is settled, its segments show no run event *)
+Lemma settled_step st id s ev w :
+  settled id s -> (forall c, ev <> Begin id c) ->
+  settled id (fst (step st s ev)) /\ (concerns id ev = true -> run_evs w (snd (step st s ev)) = []).
+Proof.
+  intros Hs Hev. destruct (concerns id ev) eqn:Hc.
+  2:{ split; [|discriminate]. unfold settled. rewrite (step_ph_other st s ev id Hc). exact Hs. }
+  rewrite step_fst, step_snd.
+  destruct ev as [i c|i e|i f|i| | |l|d|k]; unfold concerns, event_id in Hc; try discriminate Hc;
+    assert (i = id) by lia; subst i; unfold step_core.
+  - exfalso. exact (Hev c eq_refl).
+  - rewrite (end_run_settled st id e s Hs). cbn [fst snd]. split; [exact Hs|]. intros _.
+    proj_norm. reflexivity.
+  - destruct (end_fb_other st id f s) as (_ & R & P & _). split.
+    + unfold settled in *. rewrite P. destruct Hs as [Hs|(t & r & d & Hs)]; rewrite Hs; left; reflexivity.
+    + intros _. proj_norm. rewrite R. reflexivity.
+Qed.
+
+Lemma settled_rest st id w : forall h s,
+  settled id s -> ~ In id (begin_ids h) -> run_evs w (call_obs id (trace_from st s h)) = [].
+Proof.
+  induction h as [|ev h IH]; intros s Hs Hn; [reflexivity|].
+  apply not_in_begin_ids_cons in Hn. destruct Hn as [Hev Hn].
+  destruct (settled_step st id s ev w Hs Hev) as [Hs' Ho].
+  rewrite call_obs_cons, run_evs_app, (IH _ Hs' Hn), app_nil_r.
+  destruct (concerns id ev); [apply Ho; reflexivity|reflexivity].
+Qed.
+
+(* where a refused call stands after its Begin *)
+Lemma begin_refused_settled st id c s :
+  enabled st s -> c_has_run c = true -> gate s c <> GRun -> settled id (fst (step st s (Begin id c))).
+Proof.
+  intros He Hr Hg. rewrite step_begin. cbn [fst].
+  destruct (begin_call_char st id c s He Hr) as (cl1 & o1 & Q & E). cbv zeta in E. rewrite E. clear E.
+  destruct (gate s c); cbn [fst]; try (exfalso; apply Hg; reflexivity);
+    apply (fallback_stage_settled st (cs_pass id c)).
+Qed.
+
+Lemma gate_shed s c : shed_by_open s c = true -> gate s c = GShed.
+Proof. unfold gate. intros ->. reflexivity. Qed.
+
+Lemma one_short_circuit st : forall s id c h2 w,
+  enabled st s -> find_call id s = None -> c_has_run c = true -> shed_by_open s c = true ->
+  ~ In id (begin_ids h2) -> In w (run_collectors st) ->
+  run_evs w (call_obs id (trace_from st s (Begin id c :: h2))) = [(KShort, clock s, None)].
+Proof.
+  intros s id c h2 w He _ Hr Hs Hn Hw.
+  rewrite call_obs_cons. unfold concerns, event_id. rewrite Nat.eqb_refl, run_evs_app.
+  rewrite (settled_rest st id w h2 _).
+  - rewrite app_nil_r. apply (shed_step st s id c He Hr Hs). exact Hw.
+  - apply (begin_refused_settled st id c s He Hr). rewrite (gate_shed s c Hs). discriminate.
+  - exact Hn.
+Qed.
